@@ -79,7 +79,7 @@ Proof.
   destruct (6 <=? i); [sev; lia|].
   drec rec Hm s1 ms v.
   destruct ((a <? - v) && (3 <=? (if a <? - v then cuts + 1 else cuts))); [sev; lia|].
-  destruct (mg_next pinned basis cfg 700 s1 g) as [g' nx]. destruct nx as [[m' c']|]; [|sev; lia].
+  destruct (mg_next pinned basis cfg (gfuel g) s1 g) as [g' nx]. destruct nx as [[m' c']|]; [|sev; lia].
   etransitivity; [|apply IHn]. sev; lia.
 Qed.
 
@@ -87,7 +87,7 @@ Lemma zw_loop_mono c rec : mono rec -> forall n ply depth a cut s g i best,
   evals s <= evals (fst (fst (fst (zw_loop pinned basis cfg c rec n ply depth a cut s g i best)))).
 Proof.
   intros Hm. induction n; intros; cbn [zw_loop]; [sev; lia|].
-  destruct (mg_next pinned basis cfg 700 s g) as [g' nx]. destruct nx as [[m child]|]; [|sev; lia].
+  destruct (mg_next pinned basis cfg (gfuel g) s g) as [g' nx]. destruct nx as [[m child]|]; [|sev; lia].
   drec rec Hm s1 ms v.
   destruct (a <? - v); [sev; lia|]. destruct (cancelled c s1); [sev; lia|].
   etransitivity; [|apply IHn]. sev; lia.
@@ -106,7 +106,7 @@ Lemma pv_loop_mono c rec : mono rec -> forall n ply depth b s g i best a improve
   evals s <= evals (fst (fst (fst (fst (pv_loop pinned basis cfg c rec n ply depth b s g i best a improved))))).
 Proof.
   intros Hm. induction n; intros; cbn [pv_loop]; [sev; lia|].
-  destruct (mg_next pinned basis cfg 700 s g) as [g' nx]. destruct nx as [[m child]|]; [|sev; lia].
+  destruct (mg_next pinned basis cfg (gfuel g) s g) as [g' nx]. destruct nx as [[m child]|]; [|sev; lia].
   pose proof (pv_child_mono rec Hm (set_fm s ply m) child ply depth best a b (i + 1)) as M.
   destruct (pv_child rec (set_fm s ply m) child ply depth best a b (i + 1)) as [s1 [ms v]]. sev.
   destruct (a <? - v).
@@ -121,8 +121,8 @@ Lemma zw_tail_mono c rec : mono rec -> forall s g p ply depth a cut,
   evals s <= evals (fst (zw_tail pinned basis cfg c rec s g p ply depth a cut)).
 Proof.
   intros Hm; intros. unfold zw_tail.
-  pose proof (zw_loop_mono c rec Hm 700 ply depth a cut s (set_i g 0) 0 (firstn 1 (znth (fpv s) ply []))) as M.
-  destruct (zw_loop pinned basis cfg c rec 700 ply depth a cut s (set_i g 0) 0 (firstn 1 (znth (fpv s) ply []))) as [[[s1 best] didcut] ab].
+  pose proof (zw_loop_mono c rec Hm (gfuel (set_i g 0)) ply depth a cut s (set_i g 0) 0 (firstn 1 (znth (fpv s) ply []))) as M.
+  destruct (zw_loop pinned basis cfg c rec (gfuel (set_i g 0)) ply depth a cut s (set_i g 0) 0 (firstn 1 (znth (fpv s) ply []))) as [[[s1 best] didcut] ab].
   sev. destruct ab; sev; [lia|]. rewrite evals_zw_store. lia.
 Qed.
 
@@ -130,7 +130,7 @@ Lemma zw_mc_mono c rec : mono rec -> forall s g p ply depth a cut,
   evals s <= evals (fst (zw_mc pinned basis cfg c rec s g p ply depth a cut)).
 Proof.
   intros Hm; intros. unfold zw_mc. destruct (c_multicut cfg && cut && (3 <? depth)); [|apply zw_tail_mono; assumption].
-  destruct (mg_next pinned basis cfg 700 _ g) as [g1 first]. destruct first as [[m child0]|].
+  destruct (mg_next pinned basis cfg (gfuel g) _ g) as [g1 first]. destruct first as [[m child0]|].
   - match goal with |- context [mc_loop pinned basis cfg rec ?n ?ply ?d ?a ?cut ?m ?s ?g ?ch ?i ?cu] =>
       pose proof (mc_loop_mono rec Hm n ply d a cut m s g ch i cu) as M;
       destruct (mc_loop pinned basis cfg rec n ply d a cut m s g ch i cu) as [[s1 g2] mccut] end.
@@ -214,10 +214,10 @@ Proof.
   assert (NC : loud s1 = false).
   { apply (nc_le s1 _ H). clear H I.
     destruct ((a <? - v) && (3 <=? (if a <? - v then cuts + 1 else cuts))); [sev; lia|].
-    destruct (mg_next pinned basis cfg 700 s1 g) as [g' nx]. destruct nx as [[m' c']|]; [apply mc_loop_mono; assumption|sev; lia]. }
+    destruct (mg_next pinned basis cfg (gfuel g) s1 g) as [g' nx]. destruct nx as [[m' c']|]; [apply mc_loop_mono; assumption|sev; lia]. }
   rewrite (I NC).
   destruct ((a <? - v) && (3 <=? (if a <? - v then cuts + 1 else cuts))); [reflexivity|].
-  destruct (mg_next pinned basis cfg 700 s1 g) as [g' nx]. destruct nx as [[m' c']|]; [apply IHn; exact H|reflexivity].
+  destruct (mg_next pinned basis cfg (gfuel g) s1 g) as [g' nx]. destruct nx as [[m' c']|]; [apply IHn; exact H|reflexivity].
 Qed.
 
 Lemma zw_loop_indep : forall n ply depth a cut s g i best,
@@ -225,7 +225,7 @@ Lemma zw_loop_indep : forall n ply depth a cut s g i best,
   zw_loop pinned basis cfg c1 r0 n ply depth a cut s g i best = zw_loop pinned basis cfg c2 rk n ply depth a cut s g i best.
 Proof.
   induction n; intros until best; cbn [zw_loop]; [reflexivity|].
-  destruct (mg_next pinned basis cfg 700 s g) as [g' nx]. destruct nx as [[m child]|]; [|reflexivity]. intros H.
+  destruct (mg_next pinned basis cfg (gfuel g) s g) as [g' nx]. destruct nx as [[m child]|]; [|reflexivity]. intros H.
   drk rk Hm Hi s1 ms v M I.
   assert (NC : loud s1 = false).
   { apply (nc_le s1 _ H). clear H I. destruct (a <? - v); [sev; lia|]. destruct (cancelled c2 s1); [sev; lia|].
@@ -250,7 +250,7 @@ Lemma pv_loop_indep : forall n ply depth b s g i best a improved,
   pv_loop pinned basis cfg c1 r0 n ply depth b s g i best a improved = pv_loop pinned basis cfg c2 rk n ply depth b s g i best a improved.
 Proof.
   induction n; intros until improved; cbn [pv_loop]; [reflexivity|].
-  destruct (mg_next pinned basis cfg 700 s g) as [g' nx]. destruct nx as [[m child]|]; [|reflexivity]. intros H.
+  destruct (mg_next pinned basis cfg (gfuel g) s g) as [g' nx]. destruct nx as [[m child]|]; [|reflexivity]. intros H.
   pose proof (pv_child_mono rk Hm (set_fm s ply m) child ply depth best a b (i + 1)) as M.
   pose proof (pv_child_indep (set_fm s ply m) child ply depth best a b (i + 1)) as I.
   destruct (pv_child rk (set_fm s ply m) child ply depth best a b (i + 1)) as [s1 [ms v]]. sev.
@@ -273,9 +273,9 @@ Lemma zw_tail_indep : forall s g p ply depth a cut,
   zw_tail pinned basis cfg c1 r0 s g p ply depth a cut = zw_tail pinned basis cfg c2 rk s g p ply depth a cut.
 Proof.
   intros until cut. unfold zw_tail. intros H.
-  pose proof (zw_loop_mono c2 rk Hm 700 ply depth a cut s (set_i g 0) 0 (firstn 1 (znth (fpv s) ply []))) as M.
-  pose proof (zw_loop_indep 700 ply depth a cut s (set_i g 0) 0 (firstn 1 (znth (fpv s) ply []))) as I.
-  destruct (zw_loop pinned basis cfg c2 rk 700 ply depth a cut s (set_i g 0) 0 (firstn 1 (znth (fpv s) ply []))) as [[[s1 best] didcut] ab].
+  pose proof (zw_loop_mono c2 rk Hm (gfuel (set_i g 0)) ply depth a cut s (set_i g 0) 0 (firstn 1 (znth (fpv s) ply []))) as M.
+  pose proof (zw_loop_indep (gfuel (set_i g 0)) ply depth a cut s (set_i g 0) 0 (firstn 1 (znth (fpv s) ply []))) as I.
+  destruct (zw_loop pinned basis cfg c2 rk (gfuel (set_i g 0)) ply depth a cut s (set_i g 0) 0 (firstn 1 (znth (fpv s) ply []))) as [[[s1 best] didcut] ab].
   sev. assert (NC : loud s1 = false).
   { apply (nc_le s1 _ H). destruct ab; sev; [lia|]. rewrite evals_zw_store. lia. }
   rewrite (I NC). destruct ab; [reflexivity|]. rewrite (zw_store_indep _ _ _ _ _ _ NC). reflexivity.
@@ -286,7 +286,7 @@ Lemma zw_mc_indep : forall s g p ply depth a cut,
   zw_mc pinned basis cfg c1 r0 s g p ply depth a cut = zw_mc pinned basis cfg c2 rk s g p ply depth a cut.
 Proof.
   intros until cut. unfold zw_mc. destruct (c_multicut cfg && cut && (3 <? depth)); [|apply zw_tail_indep].
-  destruct (mg_next pinned basis cfg 700 _ g) as [g1 first]. destruct first as [[m child0]|]; [|apply zw_tail_indep].
+  destruct (mg_next pinned basis cfg (gfuel g) _ g) as [g1 first]. destruct first as [[m child0]|]; [|apply zw_tail_indep].
   intros H.
   match type of H with context [mc_loop pinned basis cfg rk ?n ?ply ?d ?a ?cut ?m ?s ?g ?ch ?i ?cu] =>
     pose proof (mc_loop_mono rk Hm n ply d a cut m s g ch i cu) as M;
